@@ -97,6 +97,11 @@ class C15(Check):
         self.con = _Con()
         self.anchors = self._anchors_from_ast() + [("pox/openflow/__init__.py", 167, 193)]
         self._frames = FR.corpus()
+        # offset of the IGMP / ICMP / ICMPv6 message of the corpus frames that carry one (harness's own knowledge of the layouts)
+        self._l4off = {}
+        for name, f in self._frames:
+            if len(f) >= 34 and f[12:14] == b"\x08\x00" and f[23] in (1, 2): self._l4off[name] = 14 + (f[14] & 15) * 4
+            elif len(f) >= 58 and f[12:14] == b"\x86\xdd" and f[20] == 58: self._l4off[name] = 54
         self._known = common.Findings()
 
     def _anchors_from_ast(self):
@@ -427,7 +432,10 @@ class C15(Check):
 
     # ------------------------------------------------------------------ model side
     def model_request(self, case):
-        return {"op": "parse", "cfg": "repaired", "raw": case["hex"], "core": True}
+        # the phase-1 model (`Cfg.core`) is asked as well for the fixed corpus and one generated case in four
+        how = case.get("how", "")
+        core = not how.startswith(("key", "set", "marks", "splice", "indel", "random", "nest")) or int(case["hex"][-2:] or "0", 16) % 4 == 0
+        return {"op": "parse", "cfg": "repaired", "raw": case["hex"], "core": core}
 
     @staticmethod
     def _mview(resp):
@@ -443,7 +451,7 @@ class C15(Check):
         """two answers: the full model (phase-2 parsers modelled) and the phase-1 model `Cfg.core` in which they are foreign layers"""
         self._last_model = resp
         if "error" in resp: return resp
-        return {"ext": self._mview(resp), "core": self._mview(resp.get("core", {"error": "no core answer"}))}
+        return {"ext": self._mview(resp), "core": self._mview(resp["core"]) if "core" in resp else None}
 
     def _iview(self, obs, m):
         """what must equal one model answer `m`.  Where that model's chain ends in `foreign cls bytes` the implementation's chain is cut
@@ -478,7 +486,7 @@ class C15(Check):
     def impl_view(self, case, obs):
         m = getattr(self, "_last_model", None) or {}
         if "error" in m: return None
-        return {"ext": self._iview(obs, m), "core": self._iview(obs, m.get("core", {}))}
+        return {"ext": self._iview(obs, m), "core": self._iview(obs, m["core"]) if "core" in m else None}
 
     # ------------------------------------------------------------------ generators
     WITNESSES = [   # the witnesses of the `…_defect` theorems of Properties/C15.lean (same bytes), then minimised past failures
@@ -500,6 +508,33 @@ class C15(Check):
         ("eap-unknown-type", "66778899aabb02a1b2c3d4e5888e010000050105000550"),
     ]
 
+    CSUM_HDR = {"igmp": 12, "ip6-": 8}      # header bytes of a checksum-verified message that get every value with the checksum repaired
+    # frames whose innermost header repeats, field for field, that of another corpus frame which gets the full sweep (their keys stay in the
+    # sliced sweep): the other DNS headers (dns-query, dns-empty are swept), DHCP fixed parts (dhcp-discover, bootp), the long LLDPDU (lldp-discovery)
+    SLICED_INNER = ("dns-resp", "mdns", "dhcp-offer", "dhcp-overload", "dhcp-hlen16", "lldp-full", "rarp-pad", "snap-arp", "snap2-ab-arp", "qinq-arp")
+
+    def tcp_tail_cases(self):
+        """payload-less TCP segments (IPv4 total length ends at the TCP header) whose LAST option starts in the last 1..4 header bytes:
+        every option kind the parser knows (EOL, NOP, MSS, WS, SACK-permitted, SACK, TS, MPTCP with every subtype nibble, an unknown kind),
+        every short length octet, NOP filler in front; header lengths 24 and 28, and the same with one payload byte behind the header."""
+        kinds = (0, 1, 2, 3, 4, 5, 8, 30, 99)
+        for hdr in (24, 28):
+            for start in (1, 2, 3, 4):                       # the option starts `start` bytes before the end of the header
+                room = hdr - 20
+                for kind in kinds:
+                    lens = (None,) if start == 1 else (0, 1, 2, 3, 4, 5, 10, 12, 20, 255)
+                    for ln in lens:
+                        tails = [b""]
+                        if start >= 3:
+                            tails = [bytes([x]) + bytes(start - 3) for x in ((0x00, 0x08, 0x10, 0x20, 0x30, 0x40, 0x50, 0x60, 0x70, 0xf0) if kind == 30 else (0x00,))]
+                        for tail in tails:
+                            opt = bytes([kind]) + (b"" if ln is None else bytes([ln])) + tail
+                            opt = opt[:start].ljust(start, b"\0")
+                            opts = b"\x01" * (room - start) + opt
+                            for payload in (b"", b"X"):
+                                f = FR.eth(0x0800, FR.ip4(6, FR.tcp(1000, 80, payload, opts=opts, flags=0x10, off=hdr // 4)))
+                                yield frame_case(f, "tcp-tail hdr%d start%d kind%d len%s %s" % (hdr, start, kind, ln, tail.hex()))
+
     def corpus(self):
         cases = []
         for name, hx in self.WITNESSES:
@@ -512,16 +547,49 @@ class C15(Check):
         for name, f in self._frames:
             for n in range(len(f)):
                 cases.append(frame_case(f[:n], "trunc %s %d" % (name, n)))
-                if n > 58 and name.startswith("ip6-"):
-                    h = FR.fix_icmp6(f[:n])
-                    if h is not None and h != f[:n]: cases.append(frame_case(h, "trunc+csum %s %d" % (name, n)))
+                h = FR.fix_checksums(f[:n])
+                if h != f[:n] and (name.startswith("ip6-") and n > 58 or name.startswith("igmp")):
+                    cases.append(frame_case(h, "trunc+csum %s %d" % (name, n)))
+        seen = set(c["hex"] for c in cases)
+        for c in self.tcp_tail_cases():
+            if c["hex"] not in seen:
+                seen.add(c["hex"]); cases.append(c)
         return cases
 
-    def corruptions(self):
-        """the exhaustive single-byte corruption sweep, in a fixed order: all 256 values at boundary offsets, 8 single-bit flips elsewhere"""
+    def _csum_family(self, name):
+        return name.startswith("igmp") or name.startswith("icmp-") or (name.startswith("ip6-") and self._l4off.get(name) is not None)
+
+    def key_sweeps(self):
+        """FULL sweeps, both tiers: all 256 values at
+        (1) the protocol-selector / type / code / length fields and option kind+length octets of the innermost header of every corpus frame
+            (outer headers are the innermost header of other corpus frames), with the verified checksum repaired where there is one;
+        (2) every one of the first 12 bytes of every IGMP message and the first 8 of every ICMPv6 message of the corpus (each type, each size class),
+            checksum repaired (icmp.parse does not verify its checksum: ICMP type/code are keys of (1)).
+        Frames that only differ from an already swept one before the swept byte's header are not repeated."""
+        done = set()
+        for name, f in self._frames:
+            offs = [] if name in self.SLICED_INNER else list(f.inner_keys)
+            l4 = self._l4off.get(name)
+            nh = max([n for p, n in self.CSUM_HDR.items() if name.startswith(p)] + [0])
+            if l4 is not None and nh:
+                offs = sorted(set(offs) | set(i for i in range(l4, min(l4 + nh, len(f))) if i not in (l4 + 2, l4 + 3)))
+            for i in offs:
+                sig = (bytes(f[i:]), i - (min(f.inner_keys) if f.inner_keys else i))
+                if sig in done: continue
+                done.add(sig)
+                for v in range(256):
+                    if v == f[i]: continue
+                    g = f[:i] + bytes([v]) + f[i + 1:]
+                    h = FR.fix_checksums(g)
+                    yield frame_case(h, "key%s %s %d %02x" % ("+csum" if h != g else "", name, i, v)), (name, i)
+
+    def corruptions(self, skip):
+        """the remaining single-byte corruption sweep, in a fixed order: all 256 values at the other boundary offsets, the 8 single-bit flips
+        elsewhere (`skip` = the (frame, offset) pairs that already got the full key sweep)"""
         for name, f in self._frames:
             marks = set(f.marks)
             for i in range(len(f)):
+                if (name, i) in skip: continue
                 if i in marks:
                     for v in range(256):
                         if v != f[i]: yield name, i, v
@@ -531,20 +599,24 @@ class C15(Check):
 
     def generate(self, rng, tier):
         frames = dict(self._frames)
-        # 1. exhaustive single-byte corruption (thorough) / a deterministic slice of it (quick; the slice moves with the seed)
-        stride = 1 if tier == "thorough" else 6
+        # 1. the full key sweeps (not sliced in the quick tier)
+        skip = set()
+        for c, where in self.key_sweeps():
+            skip.add(where); yield c
+        # 2. the remaining single-byte corruption: exhaustive (thorough) / a deterministic slice of it (quick; the slice moves with the seed)
+        stride = 1 if tier == "thorough" else 16
         phase = rng.randrange(stride)
-        for j, (name, i, v) in enumerate(self.corruptions()):
+        for j, (name, i, v) in enumerate(self.corruptions(skip)):
             if j % stride != phase: continue
             f = frames[name]
             g = f[:i] + bytes([v]) + f[i + 1:]
             yield frame_case(g, "set %s %d %02x" % (name, i, v))
-            if i >= 58 and name.startswith("ip6-"):
-                # icmpv6.parse gives up on a bad checksum before it looks at the body: also offer the mutant with the checksum recomputed
-                h = FR.fix_icmp6(g)
-                if h is not None and h != g: yield frame_case(h, "set+csum %s %d %02x" % (name, i, v))
-        # 2. structure-aware and random
-        n = 14000 if tier == "quick" else 140000
+            # a parser that verifies a checksum gives up before it looks at the body: also offer the mutant with the checksum recomputed
+            h = FR.fix_checksums(g)
+            if h != g and self._l4off.get(name) is not None and i >= self._l4off[name]:
+                yield frame_case(h, "set+csum %s %d %02x" % (name, i, v))
+        # 3. structure-aware and random
+        n = 8000 if tier == "quick" else 120000
         for _ in range(n):
             yield self.g_structured(rng)
 
@@ -558,7 +630,7 @@ class C15(Check):
                 i = rng.choice(f.marks)
                 b[i] = rng.choice([0, 1, 2, 3, 4, 5, 6, 7, 8, 0x0f, 0x10, 0x3f, 0x40, 0x45, 0x4f, 0x50, 0x60, 0x7f, 0x80, 0xc0, 0xf0, 0xfe, 0xff, rng.randrange(256)])
             if rng.random() < 0.3: b = b[:rng.randint(14, len(b))]
-            if name.startswith("ip6-") and rng.random() < 0.7: b = FR.fix_icmp6(b) or b
+            if rng.random() < 0.7: b = FR.fix_checksums(b)
             return frame_case(b, "marks " + name)
         if c < 6:
             # splice: header part of one frame, tail of another
